@@ -83,3 +83,11 @@ package ipv4
 //@   at_call sendPing4 requires r.LocalAddress == req.r.LocalAddress && r.RemoteAddress == req.r.RemoteAddress
 //@   loop 1 invariant true
 //@   modifies everything(), modset(NETGHOSTS)
+
+// C13 ("while fewer than ten requests are pending every request is answered"): the queue
+// between handleICMP and the replier is created with room for exactly ten requests; handleICMP
+// drops a request only when its non-blocking send finds the queue full.
+//@ func (*protocol).NewEndpoint props C13
+//@   ensures result2 == nil && result1 != nil
+//@   ensures chancap(result1.(*endpoint).echoRequests) == 10
+//@   modifies everything()
